@@ -39,6 +39,9 @@ type Scn struct {
 	Draw  *DrawD  `json:"draw,omitempty"`
 	Stall *StallD `json:"stall,omitempty"`
 	Conc  *ConcD  `json:"conc,omitempty"`
+	// Deadline > 0: the scenario is run in a child process and a sequence that has not returned after that
+	// many milliseconds is logged as a hang (sixel family: decoding cannot be interrupted from inside)
+	Deadline int `json:"deadline,omitempty"`
 }
 
 func W(s string) Step       { return Step{K: "w", B: []byte(s)} }
@@ -188,22 +191,23 @@ func Run(sc *Scn, limit time.Duration) (evs []trace.Ev, note string) {
 		defer close(done)
 		run(sc, p)
 	}()
-	last := -1
+	last, since := -1, time.Now()
 	for {
 		select {
 		case <-done:
 			return p.evs, p.note
-		case <-time.After(limit):
+		case <-time.After(limit / 5):
 			p.mu.Lock()
 			n, kind := p.n, p.kind
-			if n == last {
+			if n != last {
+				last, since = n, time.Now()
+			} else if time.Since(since) >= limit {
 				evs = append([]trace.Ev(nil), p.evs...)
 				p.mu.Unlock()
-				evs = append(evs, trace.Ev{"ev": "hang", "k": kind})
+				evs = append(evs, trace.Ev{"ev": "hang", "k": kind, "ms": int(limit / time.Millisecond)})
 				return evs, "hang: " + kind
 			}
 			p.mu.Unlock()
-			last = n
 		}
 	}
 }
@@ -547,3 +551,6 @@ func Fixed() []*Scn {
 		f("decom", 5, 4, W("\x1b[2;3r\x1b[?6h"), W("\x1b[1;1H"), W("x\x1b[9;9H"), W("y")),
 	}
 }
+
+// Ascii makes a message printable for the trace.
+func Ascii(s string, max int) string { return ascii(s, max) }
